@@ -28,7 +28,9 @@ def run(tier):
         f_lin = pc.freq()
         f_log = 0.04 * (1.0 / 0.04) ** (np.arange(len(f_lin)) / (len(f_lin) - 1.0))       # same number of bins, logarithmic spacing
         tr = pc.SupportTrace(os.path.join(work, "c08.ndjson"))
-        balances = {"st4": create_balance("st4", "st4"), "st6": create_balance("st4", "st6")}
+        balances = {"st4": create_balance("st4", "st4"), "st6": create_balance("st4", "st6"), "st4-no-saturation-term": create_balance("st4", "st4")}
+        # a non-default parameter set: the saturation term switched off (only the cumulative term dissipates)
+        balances["st4-no-saturation-term"].update_parameters({"saturation_breaking_constant": 0.0})
         nonrom = rng.random()
         configs = [(16, 0), (24, 0), (24, 5), (36, -170)] if quick else [(16, 0), (16, 11), (24, 0), (24, 5), (36, 0), (36, -170), (36, 5)]
         configs.append((27, "refined"))
